@@ -19,6 +19,7 @@ def main():
     ap.add_argument("prop")
     ap.add_argument("worktree")
     ap.add_argument("--also", default="")
+    ap.add_argument("--wave", default="7")
     a = ap.parse_args()
     also = [p for p in a.also.split(",") if p]
     made = []
@@ -35,7 +36,7 @@ def main():
                 shutil.copy(src / f, dst / f)
         notes = (src / "notes.md").read_text() if (src / "notes.md").exists() else ""
         meta = {"id": dst.name, "breaks_property": a.prop, "properties": [a.prop, *also],
-                "source": "independent sub-agent given only the property text and a scratch worktree (wave 5)",
+                "source": "independent sub-agent given only the property text and a scratch worktree (wave " + a.wave + ")",
                 "needs_to_manifest": notes[:1500]}
         (dst / "meta.json").write_text(json.dumps(meta, indent=1) + "\n")
         made.append(dst.name)
